@@ -237,8 +237,14 @@ func (q *TransmitLimitedQueue) deleteItem(cur *limitedBroadcast) {
 	if cur.name != "" {
 		delete(q.tm, cur.name)
 	}
+}
 
-	if q.tq.Len() == 0 {
+// resetIDGenIfIdle restarts the id generator once the queue is really empty.
+// It must not be called while items are held out of the tree for reinsertion
+// or while a new item is about to be added, otherwise ids (and therefore btree
+// keys) of live items can collide. You must already hold the mutex.
+func (q *TransmitLimitedQueue) resetIDGenIfIdle() {
+	if q.lenLocked() == 0 {
 		// At idle there's no reason to let the id generator keep going
 		// indefinitely.
 		q.idGen = 0
@@ -357,6 +363,7 @@ func (q *TransmitLimitedQueue) GetBroadcasts(overhead, limit int) [][]byte {
 	for _, cur := range reinsert {
 		q.addItem(cur)
 	}
+	q.resetIDGenIfIdle()
 
 	return toSend
 }
@@ -413,4 +420,5 @@ func (q *TransmitLimitedQueue) Prune(maxRetain int) {
 		cur.b.Finished()
 		q.deleteItem(cur)
 	}
+	q.resetIDGenIfIdle()
 }
